@@ -18,6 +18,24 @@ CLAIMED = {
              'case on the full call trace and result). Process machinery around _do_step is C13/C05.',
         technique='Lean 4 refinement proof (stepper model refines small-step semantics) + differential correspondence on generated outlines',
         design='6/C09'),
+    'C16': dict(
+        text='Lean theorems over the communication model (message_receive / broadcast_receive dispatch from the tables found in '
+             'the source, _schedule_rpc as a scheduled callback, subscriptions removed by the cleanups of close, on_entered '
+             'broadcasting under an oracle per transition index) layered on the process-control model: C16_rpc_is_direct_call, '
+             'C16_broadcast_is_direct_call, C16_status_is_direct_call (configuration and reply after the scheduled callback = '
+             'those of the direct call at that point); C16_broadcast_log_exact (for every history the broadcasts are exactly one '
+             'state_changed.<from>.<to> per entry of the entered log, in order, sent by the pid); C16_tolerated_failure_invisible '
+             '(for every transition index and tolerated kind every observation equals the failure-free run, the log misses that '
+             'entry); C16_unsubscribed_after_termination; C16_unknown_intent_rejected. The model is compared op by op with real '
+             'processes controlled through RemoteProcessThreadController -> LoopCommunicator -> in-process kiwipy communicator, '
+             'and independent monitors compare every such run with a twin process receiving direct calls where the handlers ran.',
+        note='Modelled, not verified: kiwipy LocalCommunicator/futures and asyncio hops (assumed contracts stated in '
+             'Comms/Model.lean); RabbitMQ is out of reach offline. The direct-call theorems are close to definitional in the '
+             'model; their substance is the twin comparison on the real communicator path. A non-tolerated broadcast exception '
+             'ends the modelled run (it is a failing transition hook, C03).',
+        technique='Lean 4 invariants over all histories + exhaustive small-scope differential check (<= 2/3 control messages at '
+                  'every callback boundary, every tolerated failure class at every transition index) with twin-process monitors',
+        design='6/C16'),
     'C19': dict(
         text='Lean theorems C19_members_roundtrip (+ _global, _persave), C19_autopersist_inherit_independent (+ _shared_leaks), '
              'C19_future_state_restored, C19_loader_precedence, C19_unknown_class_valueerror (+ C19_loaded_class_is_resolved): '
